@@ -165,6 +165,9 @@ def replay_state(st: dict, out: dict, want_event: bool, want_rejects: bool) -> N
             V(["C15", "C14"], "transferred_to() returned a relation in another engine", observed=rel.engine.name)
         if last["f"] == "xfer" and before.engine.name == last["dest"] and rel is not before:
             V(["C14", "C15"], "transfer to the current engine did not return the relation itself")
+        if last["f"] == "un" and _is_noop(last["op"], before) and rel is not before:
+            V(["C14"], "a documented no-op call (with preferred-engine options) did not return the relation itself",
+              call=last, returned=str(rel))
         if last["f"] == "mat":
             nb, na = len(mats_of(before)), len(mats_of(rel))
             locked_before = before.is_locked or (hasattr(before, "skip_to") and before.skip_to.is_locked and before.target is before.skip_to)
